@@ -7,7 +7,7 @@
    file of f is reachable through directories — true of every real tree. *)
 From RipV Require Import Base.Prelude Base.Fs Model.Paths Model.Checkpoint Proofs.PathsProofs Proofs.CheckpointProofs
   Proofs.AutoCoverProofs Proofs.CheckpointMultiProofs Proofs.AutoPatchProofs Gen.AutoCover
-  Model.ToolDispatch Proofs.ToolDispatchProofs Gen.ToolNames.
+  Model.ToolDispatch Proofs.ToolDispatchProofs Gen.ToolNames Model.StampReuse Proofs.StampReuseProofs.
 From RipV Require Model.Patch.
 Require Import Coq.Strings.String.
 
@@ -351,6 +351,29 @@ Example c14_ex_multi :
        /\ file_at f [m_a] = Some (bs "a0"%string) /\ file_at f [m_b] = Some (bs "b1"%string)
        /\ exists f3, rewind f ck0 = (f3, None) /\ file_at f3 [m_b] = None.
 Proof. exact ex_multi. Qed.
+
+(* ---------- a create that trusts file metadata (seeded change C14-8) ----------
+   `create_reuse mt prev` = create_checkpoint that does not read a file whose stamp (length, modification time `mt`)
+   equals the one the previous checkpoint of the session recorded, and reuses that checkpoint's stored bytes.  With
+   nothing recorded it is `create` ... *)
+Theorem c14_create_reuse_first : forall (mt : str -> N) (f : fs) (root : str) (raws : list str),
+  create_reuse mt [] f root raws = create f root raws.
+Proof. exact create_reuse_first. Qed.
+Print Assumptions c14_create_reuse_first.
+
+(* ... but "same length and same modification time" is not "same bytes": on a clock that does not advance (or after
+   a tool put the old time back) the second checkpoint of config.toml, taken after `retries = 3` became `retries = 5`,
+   records the first checkpoint's bytes, and the rewind to it succeeds with bytes the file did not have then.  /repo's
+   create reads every file (T1 gen_store_ok); the harness runs a third of its histories on a frozen clock. *)
+Theorem c14_stamp_reuse_refuted :
+  exists mt f1 f2 f3 root raws ck1 ck2 f4 b,
+    create_reuse mt [] f1 root raws = Ok ck1
+    /\ create_reuse mt (recorded mt ck1) f2 root raws = Ok ck2
+    /\ create f2 root raws <> Ok ck2
+    /\ sane_b f3 = true /\ rewind f3 ck2 = (f4, None)
+    /\ os_read f2 (tgt_of t_a) = Ok b /\ os_read f4 (tgt_of t_a) <> Ok b.
+Proof. exact stamp_reuse_refuted. Qed.
+Print Assumptions c14_stamp_reuse_refuted.
 
 (* ---------- the store side ----------
    The store lies inside the workspace, so a stored copy can be changed or removed between create and rewind
